@@ -138,8 +138,63 @@ class DomChecksOp(c15.Op):
         return cases
 
 
+class RealDocsOp(c15.Op):
+    """The documents the REAL generator returns: Survey.xml() of generated forms, node by node (class of every node kept), handed to the
+    model: it must pass the model's checks (document_accepted, unique attributes) -- so that C01_accepted_document_wellformed applies to it --
+    and the model's writer must produce, character for character, the two texts pyxform writes for it."""
+    name = "E.real_documents"
+    imports = ["PX.Model.Dom", "PX.Model.Ser", "PX.Model.DomCheck", "PX.Proofs.RT", "PX.Proofs.Top"]
+    fn = "fun n => if document_accepted n && dom_attrs_unique n && is_elem n then write_both n else [82;69;70;85;83;69;68]%N"
+    in_ty = "node"
+    n_quick, n_thorough = 80, 800
+    cases_per_file = 20
+
+    @staticmethod
+    def dom_to_tuple(n):
+        from xml.dom import Node
+        from pyxform.utils import DetachableElement, PatchedText
+        if n.nodeType == Node.ELEMENT_NODE:
+            attrs = [(k, v.value) for k, v in (n._attrs or {}).items()]
+            if isinstance(n, DetachableElement):
+                return ("DE", n.tagName, attrs, [RealDocsOp.dom_to_tuple(c) for c in n.childNodes])
+            if n.childNodes:
+                raise ValueError("an element delivered by the XML parser has children: outside the model (ME is an empty element)")
+            return ("ME", n.tagName, attrs)
+        if n.nodeType in (Node.TEXT_NODE, Node.CDATA_SECTION_NODE):
+            return ("PT" if isinstance(n, PatchedText) else "MT", n.data)
+        raise ValueError(f"node type {n.nodeType} is outside the model")
+
+    def generate(self, rng, n):
+        from pyxform.xls2xform import convert
+        from pyxform.errors import PyXFormError
+        cases = []
+        tries = 0
+        while len(cases) < n and tries < 4 * n:
+            tries += 1
+            form = forms.gen_form(rng, forms.Profile(adversarial=0.4, max_rows=rng.choice([3, 5, 8])))
+            form = forms.add_custom_columns(rng, form)
+            form.pop("__info", None)
+            if rng.random() < 0.4:
+                forms.add_exotics(rng, form, ["search", "osm", "audit", "count_expr", "calc_msgs", "entity_variants", "loop", "group_media", "noapp_ref", "two_instance_exprs"], p=0.35)
+            try:
+                r = convert(forms.as_dict(form))
+            except PyXFormError:
+                continue
+            survey = r._survey
+            dom = survey.xml()
+            try:
+                t = self.dom_to_tuple(dom)
+            except ValueError as e:
+                cases.append({"coq": "(PT [])", "expected": f"outside the model: {e}", "desc": {"form": form}, "class": "outside the model"})
+                continue
+            expected = survey._to_ugly_xml() + "\x00" + survey._to_pretty_xml()
+            cases.append({"coq": domgen.to_coq(t), "expected": expected, "desc": {"form": form}, "class": f"nodes<={1 << domgen.size(t).bit_length()}",
+                          "nontrivial": True})
+        return cases
+
+
 def ops(tier):
-    return c15.ops(tier)[:3] + [IsXmlTagOp(), DomChecksOp()]
+    return c15.ops(tier)[:3] + [IsXmlTagOp(), DomChecksOp(), RealDocsOp()]
 
 
 XML_NAME = re.compile(r"^[A-Za-z_:À-ÖØ-öø-˿Ͱ-ͽͿ-῿‌‍⁰-↏Ⰰ-⿯、-퟿豈-﷏ﷰ-�\U00010000-\U000EFFFF]"
